@@ -27,7 +27,7 @@ import (
 func TestMain(m *testing.M) {
 	logrus.SetOutput(io.Discard)
 	logrus.SetLevel(logrus.PanicLevel)
-	ev.C().Rule("rapid state machine over a real CachedCloudProvider with a scripted CloudProvider (per call: full / partial / empty / error with partial data; batch limit 1, 2 or 5) and an owned refresh ticker: actions submit(1..3 sources) / peek / tick(real now + k*10min) / emit. TTL 15 min, negative TTL 5 min, idle 25 min so that every comparison has >= 5 min of margin against seconds of real drift. Oracle: answer-per-request multiset, cache model (never forgets good data), refresh and eviction sets, cache-size gauges. Non-trivial = a success followed by a failed refresh of the same source, or >= 2 sources in one provider call")
+	ev.C().Rule("rapid state machine over a real CachedCloudProvider with a scripted CloudProvider (per call: full / partial / empty / error with partial data; batch limit 1, 2 or 5) and an owned refresh ticker: actions submit(1..3 sources) / peek / tick(real now + k*10min) / emit / tickSlowProvider (refresh whose provider calls block) / release (the blocked calls return, possibly after the entries were evicted as idle). TTL 15 min, negative TTL 5 min, idle 25 min so that every comparison has >= 5 min of margin against seconds of real drift. Oracle: answer-per-request multiset, cache model (never forgets good data), refresh and eviction sets, cache-size gauges. Non-trivial = a success followed by a failed refresh of the same source, or >= 2 sources in one provider call, or a refresh answer arriving after its entry was evicted")
 	vt.Main(m)
 }
 
@@ -63,12 +63,23 @@ type provider struct {
 	answers  []answer // expected answers in the order the dispatcher produces them
 	gen      int
 	bigBatch bool
+	hold     chan struct{} // non-nil: calls block on entry until it is closed (a slow provider)
 }
 
 func (p *provider) Name() string           { return "scripted" }
 func (p *provider) MaxInstancesBatch() int { return p.max }
 func (p *provider) EstimatedTags() int     { return 1 }
 func (p *provider) Instance(ctx context.Context, ips ...gostatsd.Source) (map[gostatsd.Source]*gostatsd.Instance, error) {
+	p.mu.Lock()
+	hold := p.hold
+	p.mu.Unlock()
+	if hold != nil {
+		select {
+		case <-hold:
+		case <-ctx.Done():
+			return nil, ctx.Err()
+		}
+	}
 	p.mu.Lock()
 	defer p.mu.Unlock()
 	o := p.script[len(p.calls)%len(p.script)]
@@ -138,8 +149,12 @@ func TestInstanceCacheHistories(t *testing.T) {
 				}
 			}
 		}()
+		var held chan struct{}
 		defer func() {
 			cancel()
+			if held != nil {
+				close(held)
+			}
 			<-drainDone
 			select {
 			case <-runDone:
@@ -263,8 +278,76 @@ func TestInstanceCacheHistories(t *testing.T) {
 			}
 		}
 
+		heldExpected := 0
+		var heldSet []gostatsd.Source
+		heldBefore := 0
+		evictedWhileHeld := false
+		lateAnswerAfterEviction := false
+		release := func() {
+			history = append(history, "release")
+			prov.mu.Lock()
+			prov.hold = nil
+			prov.mu.Unlock()
+			close(held)
+			held = nil
+			expected += heldExpected
+			heldExpected = 0
+			waitAnswers()
+			var queried []gostatsd.Source
+			for _, c := range prov.snapshotCalls()[heldBefore:] {
+				queried = append(queried, c...)
+			}
+			sort.Slice(queried, func(i, j int) bool { return queried[i] < queried[j] })
+			if fmt.Sprint(queried) != fmt.Sprint(heldSet) {
+				fail("C12:refresh-set", "slow provider released: it was asked for %v, the entries past their TTL at the tick were %v", queried, heldSet)
+			}
+			if evictedWhileHeld {
+				lateAnswerAfterEviction = true
+			}
+			evictedWhileHeld = false
+			checkPeeks()
+		}
 		t.Repeat(map[string]func(*rapid.T){
+			"tickSlowProvider": func(t *rapid.T) {
+				// a refresh tick whose provider calls do not return until "release": the refresh stays outstanding
+				if held != nil {
+					t.Skip("provider already blocked")
+				}
+				delta := 20 * time.Minute
+				var refreshSet []gostatsd.Source
+				for s := range model {
+					refreshSet = append(refreshSet, s) // 20 min is past both TTLs and within the idle period
+				}
+				if len(refreshSet) == 0 {
+					t.Skip("nothing cached")
+				}
+				sort.Slice(refreshSet, func(i, j int) bool { return refreshSet[i] < refreshSet[j] })
+				history = append(history, fmt.Sprintf("tickSlowProvider(+%v)", delta))
+				held = make(chan struct{})
+				prov.mu.Lock()
+				prov.hold = held
+				prov.mu.Unlock()
+				heldBefore = len(prov.snapshotCalls())
+				select {
+				case tick <- time.Now().Add(delta):
+				case <-time.After(30 * time.Second):
+					fail("C12:tick-not-taken", "refresh tick not taken within 30s")
+				}
+				emitBarrier()
+				heldExpected = len(refreshSet)
+				heldSet = refreshSet
+				checkPeeks()
+			},
+			"release": func(t *rapid.T) {
+				if held == nil {
+					t.Skip("provider not blocked")
+				}
+				release()
+			},
 			"submit": func(t *rapid.T) {
+				if held != nil {
+					t.Skip("the lookup dispatcher is inside the blocked provider call")
+				}
 				srcs := rapid.SliceOfN(rapid.SampledFrom(sources), 1, 3).Draw(t, "sources")
 				history = append(history, fmt.Sprintf("submit%v", srcs))
 				for _, s := range srcs {
@@ -302,6 +385,13 @@ func TestInstanceCacheHistories(t *testing.T) {
 			},
 			"tick": func(t *rapid.T) {
 				k := rapid.IntRange(0, 4).Draw(t, "k")
+				if held != nil {
+					// while a refresh is outstanding only ticks that queue nothing new: no time passed, or everything idle
+					k = []int{0, 3, 3, 4, 4}[k]
+					if k >= 3 && len(model) > 0 {
+						evictedWhileHeld = true
+					}
+				}
 				delta := time.Duration(k) * 10 * time.Minute
 				history = append(history, fmt.Sprintf("tick(+%v)", delta))
 				var refreshSet []gostatsd.Source
@@ -352,6 +442,9 @@ func TestInstanceCacheHistories(t *testing.T) {
 				}
 			},
 		})
+		if held != nil {
+			release()
+		}
 		// no stray answers: wait longer than the batching delay and compare once more
 		time.Sleep(25 * time.Millisecond)
 		waitAnswers()
@@ -363,6 +456,10 @@ func TestInstanceCacheHistories(t *testing.T) {
 		}
 		if prov.bigBatch {
 			labels = append(labels, "multi-source-provider-call")
+		}
+		if lateAnswerAfterEviction {
+			labels = append(labels, "refresh-answer-after-idle-eviction")
+			nt = true
 		}
 		if ev.C().WantSample() {
 			ev.C().Sample(map[string]interface{}{"max_batch": prov.max, "script": fmt.Sprint(prov.script), "history": history, "provider_calls": fmt.Sprint(prov.snapshotCalls())})
